@@ -505,8 +505,11 @@ def rule_end_test(ctx):
                                         "behind the physical line and the loop over-runs the section")
                         path_info = cfg.describe_path(pth)
                 for i in incs:
-                    if cfg.find_path(i, incs, avoid=[h], skip_labels=EXC):
-                        problems.append("the line counter can advance twice within one iteration")
+                    # exception edges included: an increment inside an error handler also counts
+                    if cfg.find_path(i, incs, avoid=[h, cfg.exit, cfg.raise_exit]):
+                        problems.append("the line counter can advance twice within one iteration (e.g. again in an error "
+                                        "handler): the end-of-section test then fires early and the last lines of the section "
+                                        "are dropped")
             # (2) the end test is evaluated on every iteration (after the increment)
             srcs = incs if (counter is None and incs) else body_entry
             for s in srcs:
@@ -1297,3 +1300,110 @@ def rule_line_normalise(ctx):
                 "the column sniffer and the reference engine disagree on which lines are skipped (comment, blank): "
                 "sniffer %s, reference engine %s" % (results["sniffer"], results["reference-engine"]))
     ctx.floor("LINE.NORMALISE", 3)
+
+
+TYPE_PROBES = [
+    ("~A", "Data"), ("~a", "Data"), ("~ASCII", "Data"), ("~ascii log data", "Data"), ("~Log_Data | Log_Definition", "Data"),
+    ("~O", "Header (other)"), ("~other", "Header (other)"), ("~Other Information", "Header (other)"),
+    ("~V", "Header items"), ("~Version", "Header items"), ("~well", "Header items"), ("~Curve Information", "Header items"),
+    ("~Parameter", "Header items"), ("~Tops", "Header items"), ("~TOOL_DATABASE", "Header items"),
+    ("~Mud_datasheet", "Header items"), ("~Custom_Section", "Header items"), ("~Log_Definition", "Header items"),
+    ("~Log_Parameter", "Header items"), ("~Drilling_Data", "Las3_Data"), ("~Core_Data[1]", "Las3_Data"),
+]
+
+
+def rule_section_type(ctx):
+    """truth table of determine_section_type over probe titles (folded if/elif chain)"""
+    p = ctx.p
+    fi = p.func("reader.determine_section_type")
+    par = fi.params()[0]
+    defs = _single_defs(fi)
+    chain = []
+
+    def collect(stmts):
+        for st in stmts:
+            if isinstance(st, ast.If):
+                rets = [x for x in st.body if isinstance(x, ast.Return)]
+                chain.append((st.test, rets[0].value if rets else None))
+                collect(st.orelse)
+            elif isinstance(st, ast.Return):
+                chain.append((None, st.value))
+    collect([x for x in fi.node.body])
+    if not chain or chain[-1][0] is not None:
+        raise AnalysisError("determine_section_type is not an if/elif/return chain")
+    problems = []
+    for title, want in TYPE_PROBES:
+        got = None
+        for test, val in chain:
+            try:
+                ok = True if test is None else bool(_fold_title(test, par, title, defs=defs))
+            except NotConst as e:
+                raise AnalysisError("SEC.TYPE: cannot fold `%s`: %s" % (unparse(test), e))
+            if ok:
+                try:
+                    got = fold(val) if val is not None else None
+                except NotConst:
+                    got = unparse(val)
+                break
+        if got != want:
+            problems.append("a section titled %r is classified %r (documented: %r)" % (title, got, want))
+    ctx.check(not problems, "SEC.TYPE", fi.qual + "#truth-table", fi, fi.node,
+              "section kind by title agrees with the documented classification for %d probe titles (both cases of A/O, "
+              "custom titles containing '_data', LAS 3 data sections)" % len(TYPE_PROBES),
+              "; ".join(problems[:4]) + (": the lines of such a section are attributed to the wrong kind of section or dropped" if problems else ""))
+    ctx.floor("SEC.TYPE", 1)
+
+
+def rule_content_only_effects(ctx):
+    """LINE.EFFECTS: in the sniffer and the reference engine every per-line effect other than advancing the line
+    counter (append to a census list, yield) is control-dependent on the line being neither blank nor a comment"""
+    p = ctx.p
+    for (fi, loop, role, counter, linevar, direct, start, ends, firsts) in _consumer_loops(p):
+        if role not in ("sniffer", "reference-engine") or linevar is None:
+            continue
+        cfg = build_cfg(p, fi)
+        cd = ControlDependence(cfg)
+        cparams = [x for x in (fi.params() + (fi.parent.params() if fi.parent else [])) if "comment" in x]
+        site = "%s#%s-effects" % (fi.qual, role)
+        problems = []
+        n_eff = 0
+        for node in cfg.nodes:
+            if node.ast is None or node.kind != "stmt" or not in_block(node.ast, loop.body):
+                continue
+            eff = None
+            for c in walk_expr_shallow(node.ast):
+                if isinstance(c, ast.Call) and isinstance(c.func, ast.Attribute) and c.func.attr in ("append", "add", "extend"):
+                    eff = c
+                if isinstance(c, (ast.Yield, ast.YieldFrom)):
+                    eff = c
+            if eff is None:
+                continue
+            n_eff += 1
+            deps = set(cd.transitive(node.id))
+            # statements inside an except handler inherit the conditions of the try statement they belong to
+            cur = node.ast
+            par = getattr(cur, "_parent", None)
+            while par is not None and par is not loop:
+                if isinstance(par, ast.Try) and not in_block(cur, par.body):
+                    for first in cfg.nodes_for(par.body[0]):
+                        deps |= set(cd.transitive(first))
+                cur = par
+                par = getattr(par, "_parent", None)
+            tests = [(cfg.nodes[tn].ast, lab.startswith("true")) for (tn, lab) in deps
+                     if cfg.nodes[tn].kind == "test" and in_block(cfg.nodes[tn].ast, loop.body)]
+            txts = []
+            for t, pol in tests:
+                for a in (t.values if isinstance(t, ast.BoolOp) and isinstance(t.op, ast.And) and pol else [t]):
+                    txts.append((ast.unparse(a), pol))
+            has_comment = any(any(cp in tx for cp in cparams) and "startswith" in tx for tx, pol in txts)
+            has_blank = any(("len(%s)" % linevar in tx) or tx in (linevar, "not %s" % linevar) for tx, pol in txts)
+            if not (has_comment and has_blank):
+                problems.append("`%s` is executed for %s lines too: inserting such lines changes the result (e.g. the "
+                                "hyphen census decides whether the run-on substitutions are dropped)" % (
+                                    unparse(node.ast), " and ".join(k for k, v in (("comment", has_comment), ("blank", has_blank)) if not v)))
+        if n_eff == 0:
+            raise AnalysisError("no per-line effect found in the %s loop" % role)
+        ctx.check(not problems, "LINE.EFFECTS", site, fi, loop,
+                  "all %d per-line effects of the %s loop happen only for lines that are neither blank nor comments" % (n_eff, role),
+                  "; ".join(dict.fromkeys(problems)))
+    ctx.floor("LINE.EFFECTS", 2)
